@@ -115,4 +115,16 @@ PROPS = {
                      "the hand-written 16-point assembly kernels are exercised (leaf-avx, avx2 drivers) but only "
                      "memcheck (thorough tier) instruments their memory accesses", ASAN_NOTE],
     ),
+    "C14": dict(
+        runs=std(),
+        rule=("case = one conversion call (conversion, variant table-native|table-generic|ref|accelerated kernel, m, "
+              "divisor 2^j, log2overhead, repetition) on 2m generated values (exponent sweep, domain boundary, near-ties, "
+              "quarter points, integers, tiny, random); distinct by descriptor hash; every case is non-trivial (each "
+              "batch contains non-integers and boundary values)"),
+        require={"all": ["values_checked", "rounding_exercised", "conv:reim_from_znx64", "conv:reim_to_znx64",
+                         "conv:reim_to_tnx", "conv:cplx_from_znx32", "conv:cplx_from_tnx32", "conv:cplx_to_tnx32"]},
+        assumptions=["exact comparison in __float128: r*d, x and 2^32 scalings fit in 113 bits",
+                     "exact .5 ties accept both neighbours; accelerated kernels are called directly only at sizes that "
+                     "fill their vector step (the library itself selects them for m >= 8)", ASAN_NOTE],
+    ),
 }
